@@ -2,6 +2,8 @@ package main
 
 import (
 	"fmt"
+	"os"
+	"runtime/debug"
 	"sync"
 	"go/types"
 	"sort"
@@ -16,7 +18,11 @@ type pathEnd struct{ why string }
 type unsupported struct{ msg string }
 
 func unsup(format string, a ...interface{}) {
-	panic(unsupported{fmt.Sprintf(format, a...)})
+	msg := fmt.Sprintf(format, a...)
+	if os.Getenv("GOVC_STACK") != "" {
+		msg += "\n" + string(debug.Stack())
+	}
+	panic(unsupported{msg})
 }
 
 type Obligation struct {
@@ -106,6 +112,8 @@ type State struct {
 	doneChans     map[int]*ChanV
 	blocking      int
 	rvStore       map[int]map[string]*Term
+	byteStr       map[int]*StringV
+	probing       int
 }
 
 func (s *State) freshName(base string) string {
@@ -123,6 +131,10 @@ func (s *State) freshVar(base string, so Sort) *Term { return Var(s.freshName(ba
 
 func (s *State) decide(n int, tag string) int {
 	if n <= 1 {
+		return 0
+	}
+	if s.probing > 0 {
+		// speculative probe: follow the first alternative, record nothing
 		return 0
 	}
 	if s.dpos < len(s.decisions) {
@@ -605,6 +617,8 @@ type Engine struct {
 	inlineAll bool
 	loadedPkgs []*packages.Package
 	neverWritten map[*ssa.Global]bool
+	constMaps map[*ssa.Global]*constMap
+	ifConvert bool
 }
 
 func (e *Engine) closedWorld(t types.Type) []types.Type {
